@@ -193,7 +193,7 @@ def impl_run(c):
         return r
 
     ft.ScheduledFiniteThrust.getStateChangeCallback = spy_cb
-    step_events, rerun = [], None
+    step_events, rerun, rerun_whole = [], None, None
     try:
         for k in range(1, N + 1):
             t0, t1 = c["late"] + (k - 1) * dt, c["late"] + k * dt
@@ -232,6 +232,19 @@ def impl_run(c):
         for k in range(1, N + 1):
             xr = dyn2.propagate(ScenarioTime(c["late"] + (k - 1) * dt), ScenarioTime(c["late"] + k * dt), xr, scheduled_events=step_events[k - 1])
         rerun = [float(v) for v in xr]
+        # and once as a what-if study does it: a pass that STOPS inside a burn (its end falls between the burn's start and end), then the whole
+        # arc from the beginning in one call - all with the very same event objects. What a pass left on them must not leak into the next one
+        allev = []
+        for lst in step_events:
+            for ev in lst:
+                if not any(ev is e for e in allev):
+                    allev.append(ev)
+        kmid = next((k for k in range(1, N) if any(bs < c["late"] + k * dt < be for bs, be, _bf, _bEv in burns)), None)
+        if kmid is not None and allev:
+            dyn3 = make_dynamics(c["model"])
+            dyn3.propagate(ScenarioTime(c["late"]), ScenarioTime(c["late"] + kmid * dt), x0_of(c["orbit"]).copy(), scheduled_events=allev)
+            xw = dyn3.propagate(ScenarioTime(c["late"]), ScenarioTime(c["late"] + N * dt), x0_of(c["orbit"]).copy(), scheduled_events=allev)
+            rerun_whole = [float(v) for v in xw]
         del callbacks[n_cb:]
         del pushed[n_p:]
     finally:
@@ -263,7 +276,7 @@ def impl_run(c):
     yb = xb0.copy()
     for k in range(1, N + 1):
         yb = fresh.propagate(ScenarioTime(c["late"] + (k - 1) * dt), ScenarioTime(c["late"] + k * dt), yb)
-    return {"rerun": rerun, "final": [float(v) for v in x], "ref": [float(v) for v in y], "coast": [float(v) for v in coast], "switches": switches,
+    return {"rerun_whole": rerun_whole, "rerun": rerun, "final": [float(v) for v in x], "ref": [float(v) for v in y], "coast": [float(v) for v in coast], "switches": switches,
             "companion": [float(v) for v in xb], "companion_ref": [float(v) for v in yb],
             "callbacks": callbacks, "ends": ends, "queues": queues,
             # the interval as the propagator was given it (the configured instants after their passage through Julian dates: +-25 microseconds)
@@ -332,6 +345,15 @@ def oracle(run: Run, c, impl):
                                               f"{np.linalg.norm(rr[3:] - final[3:]):.3g} km/s from the first pass"))
     dpos, dvel = float(np.linalg.norm(final[:3] - ref[:3])), float(np.linalg.norm(final[3:] - ref[3:]))
     effect = float(np.linalg.norm(ref[3:] - coast[3:]))
+    if i.get("rerun_whole") is not None:
+        rw = np.array(i["rerun_whole"])
+        ew = float(np.linalg.norm(rw[3:] - final[3:]))
+        run.worse("whole-arc-after-partial-pass-km/s", ew)
+        run.count("partial-pass-then-whole-arc")
+        # one call over the whole arc against the step-by-step run: the integrator's own difference, far below a misplaced thrust
+        if ew > max(2e-9, 1e-4 * effect) + 1e-8 or float(np.linalg.norm(rw[:3] - final[:3])) > 2e-3:
+            fails.append(("trajectory:after-partial-pass", f"after a pass that stopped inside a burn, the whole arc propagated with the same scheduled-event objects ends "
+                                                           f"{np.linalg.norm(rw[:3] - final[:3]):.3g} km / {ew:.3g} km/s from the step-by-step run (thrust effect {effect:.3g} km/s)"))
     run.worse("velocity-vs-reference-km/s", dvel)
     run.worse("position-vs-reference-km", dpos)
     tol_v = max(2e-9, 1e-4 * effect)
